@@ -44,7 +44,18 @@ RULE = (
     "features otherwise; histories that declare a feature on a built-in type or define a name twice on one chain are outside "
     "schema_of's domain and only (a) is compared. Two further streams have exactly scen's shape: scen.gen_tspec itself (6-8 types, "
     "reserved and awkward names, element types, a String subtype) and deep trees (chains up to depth 9, features on every level). "
-    "Non-trivial: a feature is added to a type that already has a subtype or an instance."
+    "Features on the built-in ancestors (`on any type`): exhaustive over the 13-operation alphabet {create r.A<uima.cas.TOP, r.B<r.A, "
+    "r.C<Annotation; f:Integer / f:String on uima.cas.TOP; f:Integer on r.A, f:String on r.B, g:Integer on AnnotationBase, g:String and "
+    "f:Integer on r.C; instantiate r.A, r.B, r.C} up to length 3 plus samples of length 4 and 5 (quick) / up to 4 plus a sample of 5 "
+    "(thorough), and random histories (2-7 types below TOP / AnnotationBase / Annotation / DocumentAnnotation and below each other, "
+    "features on those built-in types and on the user types before and after the types below them exist, now and then a name a "
+    "built-in descendant defines already); observed there: the user types, uima.cas.TOP, Annotation, a built-in sibling. "
+    "Both spellings of the operation: TypeSystem.add_feature (deprecated alias of create_feature, same arguments) is rendered as "
+    "create_feature; exhaustive over the 12-operation alphabet {create a.A, a.B<a.A; f:FSArray<Annotation> on a.A and a.B by either "
+    "spelling, f:FSArray without element type, g:String with a description by add_feature on a.A and by create_feature on a.B, "
+    "g:Integer, h with element type + description + multipleReferencesAllowed; instantiate a.B} up to length 3 (quick, plus samples "
+    "of length 4 and 5) / 5 (thorough); in the random histories above up to 70 % of the features come through add_feature. "
+    "Non-trivial: a feature is added to a type that already has a (user-defined) subtype or an instance."
 )
 TRUSTED = [
     "Coq 8.16.1 kernel and vm_compute; theorems in Props/C11.v are closed under the global context",
@@ -55,6 +66,8 @@ TRUSTED = [
     "recursion through _children) is proved equal to it under WF (C11_mechanism_agrees) and is evaluated in every correspondence case",
     "the model's initial state equals the observed TypeSystem() (extra obligation, decided by vm_compute on every run)",
     "correspondence harness harness/props/C11.py + tscommon.py; oracle = independent bookkeeping (declared supertypes + own definitions)",
+    "TypeSystem.add_feature is read as the operation create_feature (model: OCreateFeature with the same arguments; oracle: the same "
+    "bookkeeping): the API documents it as a deprecated alias",
     "reading a merge as a history (harness/props/C11.py _merge_plan/_merge_linearise): the arguments' declarations, taken from the "
     "oracle's bookkeeping of each argument, in argument order, a type as soon as its supertype exists",
     "harness/bridge.py: reading the declarations of a history (history_to_tspec) and the flattened view off the implementation's objects "
@@ -62,6 +75,8 @@ TRUSTED = [
 ]
 ASSUMPTIONS = [
     "feature names are not the structural attribute names type / xmiID (self and type are renamed by the code to self_ / type_)",
+    "features given to built-in types are named f / g / h / self or, to meet an existing definition, begin / language; not sofa, "
+    "elements, head, tail (DESIGN section 6)",
     "`identical` means equal range, element type (None = TOP), description and multipleReferencesAllowed; `conflicting` means a "
     "different range; for definitions in between the property is silent: the oracle accepts either a refusal or a no-op, the model "
     "follows Feature.__eq__ (description and element type compared, multipleReferencesAllowed not)",
@@ -85,6 +100,11 @@ def inst(t):
     return {"op": "inst", "t": t}
 
 
+def af(dom, n, r, e=None, m=None, d=None):
+    """create_feature spelled through its deprecated alias TypeSystem.add_feature (same operation, same arguments)"""
+    return dict(cf(dom, n, r, e, m, d), via="add_feature")
+
+
 CTS = [ct("a.A", "uima.tcas.Annotation"), ct("a.B", "a.A"), ct("a.C", "a.B"), ct("a.C", "a.A")]
 POOL = ["a.A", "a.B", "a.C"]
 ALPHABET = CTS + [cf(x, "f", r) for x in POOL for r in (INT, STR)] + [cf("a.A", "g", INT)] + [inst(x) for x in POOL]
@@ -94,6 +114,18 @@ ODD = [cf("a.A", "self", INT), cf("a.B", "type", STR), cf("a.B", "f", INT, m=Tru
        cf("B", "g", "Integer"), cf("a.A", "g", "no.Such"), cf("no.Such", "f", INT), cf("a.B", "begin", STR), cf("a.B", "begin", INT),
        cf("uima.tcas.Annotation", "f", STR), cf("uima.tcas.Annotation", "f", INT), cf("a.C", "sofa", "uima.cas.Sofa"),
        ct("a.A", "a.B"), ct("b.B", "a.A"), inst("B"), inst("no.Such"), cf("a.A", "g", INT, m=False)]
+
+# features on the built-in ancestors every user type has (the root uima.cas.TOP, AnnotationBase, Annotation), before and after
+# types are created directly below them and further down
+TOPT, ANB, ANN = "uima.cas.TOP", "uima.cas.AnnotationBase", "uima.tcas.Annotation"
+ROOT = [ct("r.A", TOPT), ct("r.B", "r.A"), ct("r.C", ANN), cf(TOPT, "f", INT), cf(TOPT, "f", STR), cf("r.A", "f", INT),
+        cf("r.B", "f", STR), cf(ANB, "g", INT), cf("r.C", "g", STR), cf("r.C", "f", INT), inst("r.A"), inst("r.B"), inst("r.C")]
+ROOT_TYPES = ["r.A", "r.B", "r.C", TOPT, ANN, "uima.cas.Integer"]
+# the two spellings of the operation (create_feature / add_feature) with every optional argument in use
+FSA = "uima.cas.FSArray"
+ALIAS = [ct("a.A", ANN), ct("a.B", "a.A"), af("a.A", "f", FSA, e=ANN), cf("a.A", "f", FSA, e=ANN), cf("a.B", "f", FSA, e=ANN),
+         af("a.B", "f", FSA, e=ANN), af("a.B", "f", FSA), af("a.A", "g", STR, d="doc"), cf("a.B", "g", STR, d="doc"), af("a.B", "g", INT),
+         af("a.A", "h", FSA, e="a.A", m=True, d="all"), inst("a.B")]
 
 
 def _mk(ops, types=None, fn=None, kw=None):
@@ -110,22 +142,23 @@ def _mk(ops, types=None, fn=None, kw=None):
     return {"ops": ops, "types": types, "fn": fn, "kw": kw}
 
 
-def _valid_histories(L):
-    """every history over ALPHABET in which each operation refers to existing types (prefix-closed enumeration)"""
+def _valid_histories(L, alphabet=None):
+    """every history over the alphabet in which each operation refers to existing types (prefix-closed enumeration)"""
     out = []
+    alphabet = ALPHABET if alphabet is None else alphabet
 
     def rec(ops, exist):
         out.append(list(ops))
         if len(ops) == L:
             return
-        for o in ALPHABET:
+        for o in alphabet:
             if o["op"] == "ct":
                 if o["n"] in exist or (o["s"] not in exist and not o["s"].startswith("uima")):
                     continue
                 rec(ops + [o], exist | {o["n"]})
             else:
                 x = o["dom"] if o["op"] == "cf" else o["t"]
-                if x in exist:
+                if x in exist or x.startswith("uima"):
                     rec(ops + [o], exist)
     rec([], frozenset())
     return out
@@ -207,6 +240,67 @@ def generate(rng, tier):
     n_h = {"quick": 320, "thorough": 3000, "search": 3000}[tier]
     for k in range(n_h):
         yield _merge_history_scenario(sub, k)
+    # "on any type": features on the built-in ancestors (the root uima.cas.TOP, AnnotationBase, Annotation) before and after types
+    # are created directly below them; "create_feature": both spellings of the operation (the deprecated alias add_feature) with
+    # element type / description / multipleReferencesAllowed given.  Own random stream again.
+    sub = random.Random(rng.getrandbits(32) ^ 0xC11F4)
+    if tier != "search":
+        for alphabet, types, full_len, n4, n5 in ((ROOT, ROOT_TYPES, {"quick": 3, "thorough": 4}[tier], 120, 60),
+                                                  (ALIAS, None, {"quick": 3, "thorough": 5}[tier], 150, 60)):
+            hs = _valid_histories(5, alphabet)
+            for h in hs:
+                if len(h) <= full_len:
+                    yield _mk([dict(o) for o in h], types=types)
+            for L, n in ((4, n4), (5, n5)):
+                longer = [h for h in hs if len(h) == L and L > full_len]
+                for h in sub.sample(longer, min(len(longer), n if tier == "quick" else 1500)):
+                    yield _mk([dict(o) for o in h], types=types)
+    n_b = {"quick": 140, "thorough": 1500, "search": 3000}[tier]
+    for k in range(n_b):
+        yield _root_history(sub, k)
+
+
+def _root_history(rng, k):
+    """random histories in which the built-in ancestors (uima.cas.TOP, AnnotationBase, Annotation, DocumentAnnotation) receive
+    features too, before and after types exist directly below them and further down; in two thirds of the histories some of the
+    features are added through the deprecated alias add_feature; element types, descriptions and multipleReferencesAllowed in
+    all states; now and then a name some built-in descendant defines already (begin, language)"""
+    builtins = [TOPT, TOPT, ANB, ANN, "uima.tcas.DocumentAnnotation"]
+    fnames = ["f", "g", "h"]
+    ranges = [INT, STR, FSA, "uima.cas.Float", ANN]
+    p_alias = rng.choice([0.0, 0.35, 0.7])
+    p_root = rng.choice([0.25, 0.5])
+    users, ops = [], []
+
+    def feature_op():
+        dom = rng.choice(builtins) if not users or rng.random() < p_root else rng.choice(users)
+        name = rng.choice(fnames) if rng.random() < 0.92 else rng.choice(["begin", "language", "self"])
+        r = rng.choice(ranges + users[:1])
+        e = rng.choice([None, ANN, TOPT] + users[:1]) if r == FSA else None
+        mk = af if rng.random() < p_alias else cf
+        return mk(dom, name, r, e, rng.choice([None, None, True, False]), rng.choice([None, None, "d"]))
+
+    def inst_op():
+        return inst(rng.choice(users) if rng.random() < 0.85 else rng.choice([TOPT, ANN]))
+
+    if rng.random() < 0.5:                      # the root has the feature before any user type exists
+        ops.append(feature_op())
+    for i in range(rng.randint(2, 7)):
+        name = "r.T" + str(i)
+        par = rng.choice(users) if users and rng.random() < 0.55 else rng.choice(builtins)
+        ops.append(ct(name, par))
+        users.append(name)
+        for _ in range(rng.choice([0, 1, 1, 2])):
+            ops.append(feature_op())
+        if rng.random() < 0.3:
+            ops.append(inst_op())
+    for _ in range(rng.randint(0, 3)):
+        ops.append(feature_op())
+        if rng.random() < 0.3:
+            ops.append(inst_op())
+    sc = _mk(ops, types=sorted(rng.sample(users, min(4, len(users)))) + [TOPT, ANN], fn=fnames + ["begin", "self_", "nope"], kw=fnames + ["begin", "language", "self_", "nope"])
+    sc["stream"] = "root"
+    return sc
 
 
 def _deep_tspec(rng):
@@ -459,10 +553,38 @@ def _run_merge(cassis, sc):
 
 
 # ---------------------------------------------------------------------------------------------- implementation
+def _apply_op(cassis, ts, op):
+    """tscommon.apply_op, plus the second spelling of create_feature: TypeSystem.add_feature(type_, name, rangeTypeName,
+    elementType, description, multipleReferencesAllowed) (deprecated alias; takes the Type object)"""
+    if op["op"] != "cf" or op.get("via") != "add_feature":
+        return T.apply_op(cassis, ts, op)
+    try:
+        ts.add_feature(ts.get_type(op["dom"]), op["n"], op["r"], elementType=op.get("e"), description=op.get("d"),
+                       multipleReferencesAllowed=op.get("m"))
+        return "ok"
+    except Exception as e:  # noqa
+        return T.err_kind(cassis, e)
+
+
+def _run_ops(cassis, ops):
+    """tscommon.run_ops over _apply_op: (ts, outcomes, indices of refused operations after which the dump differs)"""
+    ts = cassis.TypeSystem()
+    outcomes, changed = [], []
+    before = T.dump(ts)
+    for i, op in enumerate(ops):
+        out = _apply_op(cassis, ts, op)
+        outcomes.append(out)
+        after = T.dump(ts)
+        if out != "ok" and after != before:
+            changed.append(i)
+        before = after
+    return ts, outcomes, changed
+
+
 def run_impl(cassis, sc):
     if "merge" in sc:
         return _run_merge(cassis, sc)
-    ts, outcomes, changed = T.run_ops(cassis, sc["ops"])
+    ts, outcomes, changed = _run_ops(cassis, sc["ops"])
     types = [n for n in sc["types"] if ts.contains_type(n, True)]
     obs = {"out": outcomes, "changed_on_failure": changed, "types": types, "tables": [], "getf": [], "accept": [], "rw_fail": [],
            "order": [t.name for t in ts.get_types(built_in=True)]}
@@ -700,7 +822,8 @@ def nontrivial(sc):
     for op in sc["ops"]:
         if op["op"] == "cf":
             td = tree.resolve(op["dom"])
-            if td is not None and td not in T.BUILTIN_NAMES and (tree.children(td) or td in tree.instantiated):
+            below = td is not None and (td in tree.instantiated or any(c not in T.BUILTIN_NAMES for c in tree.subtree(td) if c != td))
+            if td is not None and ((td not in T.BUILTIN_NAMES and tree.children(td)) or below):
                 allowed = tree.apply(op, "ok")
                 hit = hit or "ok" in allowed
                 continue
@@ -746,7 +869,7 @@ def mutate(sc, rng):
         return
     for _ in range(10):
         c = T.clone(sc)
-        c["ops"].insert(rng.randint(0, len(c["ops"])), dict(rng.choice(ALPHABET)))
+        c["ops"].insert(rng.randint(0, len(c["ops"])), dict(rng.choice(ALPHABET + ROOT + ALIAS)))
         yield c
 
 
@@ -773,6 +896,12 @@ def distribution(scenarios, observations):
             "tables_observed": sum(len(o["tables"]) for o in observations if o and "tables" in o),
             "constructor_probes": sum(len(o["accept"]) * len(s["kw"]) for s, o in zip(scenarios, observations) if o and "accept" in o),
             "feature_after_instance": sum(1 for s in scenarios if _after_instance(s)),
+            "features_on_builtin_types": _count_cf(scenarios, observations, lambda op: op["dom"] in T.BUILTIN_NAMES),
+            "features_on_the_root_type": _count_cf(scenarios, observations, lambda op: op["dom"] == TOPT),
+            "types_created_below_a_builtin_type_that_got_a_feature": sum(1 for s in scenarios if _below_extended_builtin(s)),
+            "through_add_feature": _count_cf(scenarios, observations, lambda op: op.get("via") == "add_feature"),
+            "through_add_feature_with_element_or_description": _count_cf(
+                scenarios, observations, lambda op: op.get("via") == "add_feature" and (op.get("e") or op.get("d"))),
             "bridge": _bridge_distribution(scenarios, observations)}
 
 
@@ -797,6 +926,27 @@ def _bridge_distribution(scenarios, observations):
             if any(o["scen_schema"].get(n) != o["impl_schema"][n] for n in o["types"]):
                 d["scen_differs_from_impl_order"] += 1
     return d
+
+
+def _count_cf(scenarios, observations, pred):
+    """[operations, of which accepted]"""
+    n = ok = 0
+    for s, o in zip(scenarios, observations):
+        for i, op in enumerate(s["ops"]):
+            if op["op"] == "cf" and pred(op):
+                n += 1
+                ok += 1 if o and i < len(o.get("out", [])) and o["out"][i] == "ok" else 0
+    return [n, ok]
+
+
+def _below_extended_builtin(sc):
+    got = set()
+    for op in sc["ops"]:
+        if op["op"] == "cf" and op["dom"] in T.BUILTIN_NAMES:
+            got.add(op["dom"])
+        if op["op"] == "ct" and op["s"] in got:
+            return True
+    return False
 
 
 def _after_instance(sc):
